@@ -85,8 +85,12 @@ def build_node(node):
             discriminator=node["d"], ahb_expression=node["e"], data_elements=[build_node(d) for d in node["des"]]
         )
     if kind == "f":
+        from maus.models.edifact_components import DataElementDataType
+
+        extra = {"value_type": DataElementDataType.DATETIME} if node.get("vt") == "DATETIME" else {}
         return DataElementFreeText(
-            discriminator=node["d"], ahb_expression=node["e"], entered_input=node["input"], data_element_id="1234"
+            discriminator=node["d"], ahb_expression=node["e"], entered_input=node["input"], data_element_id="1234",
+            **extra,
         )
     if kind == "p":
         return DataElementValuePool(
